@@ -512,13 +512,79 @@ def reconnect_after_reset():
     return None
 
 
+def transport_opens_during_close():
+    r = run_script('''
+    async def main():
+        out = {}
+        for cls in (IO.EByteNmea2000Gateway, IO.YachtDevicesNmea2000Gateway):
+            c = cls('h', 1)
+            trace = []
+            async def cb(s, trace=trace): trace.append(s.name)
+            c.set_status_callback(cb)
+            writers = []
+            async def fake_impl(c=c, writers=writers):
+                await asyncio.sleep(0.004)                      # the transport answers while close() is still at work
+                c.reader = FakeReader([], eof=False); c.writer = FakeWriter([]); writers.append(c.writer)
+            c._connect_impl = fake_impl
+            t = asyncio.create_task(c.connect())
+            await asyncio.sleep(0)
+            await c.close()                                     # close() sleeps ~10 ms while it cancels its tasks
+            await asyncio.sleep(0.2)
+            out[cls.__name__] = {'state': c.state.name, 'trace': trace, 'receive_task_running': bool(c._receive_task and not c._receive_task.done()),
+                                 'links_left_open': len([w for w in writers if not w.closed])}
+            if c._receive_task: c._receive_task.cancel()
+        print('RESULT ' + json.dumps(out))
+    asyncio.run(main())
+    ''')
+    for k, v in r.items():
+        if isinstance(v, dict) and (v.get('state') != 'CLOSED' or v.get('receive_task_running') or v.get('links_left_open') or 'CONNECTED' in v.get('trace', [])):
+            return {'scenario': 'the transport of a connect() in flight opens while close() is cancelling its tasks', 'client': k, 'observed': v,
+                    'expected': 'state CLOSED from the moment close() was called: no CONNECTED report, no receive loop, the new link shut'}
+    return None if all(isinstance(v, dict) for v in r.values()) and r else {'scenario': 'transport opens during close', 'observed': r}
+
+
+def reconnect_mid_packet():
+    r = run_script('''
+    import serial_asyncio
+    async def main():
+        enc = IO.NMEA2000Encoder()
+        pk = [enc.encode_usb(heading(s))[0] for s in (11, 12, 13, 14)]
+        bad = {}
+        for cut in (2, 11, 19):
+            sessions = [FakeReader([pk[0] + pk[1][:cut]], eof=True), FakeReader([pk[2], pk[3]], eof=False)]
+            opened = []
+            async def fake_open(*a, **k):
+                opened.append(1)
+                return sessions[len(opened) - 1], FakeWriter([])
+            serial_asyncio.open_serial_connection = fake_open
+            IO.serial_asyncio.open_serial_connection = fake_open
+            c = IO.WaveShareNmea2000Gateway('/dev/null')
+            got = []
+            async def rc(m, got=got): got.append(m.source)
+            c.set_receive_callback(rc)
+            await c.connect()
+            for _ in range(600):
+                await asyncio.sleep(0.01)
+                if len(opened) >= 2 and len([x for x in got if x in (13, 14)]) >= 2: break
+            await asyncio.sleep(0.05)
+            await c.close()
+            if got != [11, 13, 14]: bad['cut=%d' % cut] = {'delivered': got, 'sessions_opened': len(opened)}
+        print('RESULT ' + json.dumps({'bad': bad}))
+    asyncio.run(main())
+    ''', timeout=60)
+    if r.get('bad'):
+        return {'scenario': 'serial link lost in the middle of a packet, then re-opened; two whole packets follow on the new link', 'observed': r['bad'],
+                'expected': 'packet 11 from the first session, then 13 and 14 from the second (the fragment of 12 is gone with its session)'}
+    return None if 'bad' in r else {'scenario': 'reconnect mid packet', 'observed': r}
+
+
 BATTERY = {
     'C19': {'concurrent-send': [concurrent_send], 'unsendable': [unsendable], 'stale-writer': [stale_writer], None: [concurrent_send, unsendable, stale_writer]},
-    'C14': {'close-during-connect': [close_during_connect], 'status-trace': [status_trace], 'status-callback-raises': [status_trace],
+    'C14': {'close-during-connect': [close_during_connect], 'close-sets-closed-late': [transport_opens_during_close], 'status-trace': [status_trace], 'status-callback-raises': [status_trace],
             'close-during-_receive_loop': [fault_while_closing], 'close-during-send': [fault_while_closing],
-            None: [close_during_connect, fault_while_closing, status_trace]},
-    'C13': {'eof': [eof_no_stall], 'reconnect-after-reset': [reconnect_after_reset], None: [eof_no_stall, close_during_connect, reconnect_after_reset]},
-    'C12': {None: [delivery_order, delivery_all_clients, serial_split_marker]},
+            None: [close_during_connect, fault_while_closing, status_trace, transport_opens_during_close]},
+    'C13': {'eof': [eof_no_stall], 'reconnect-after-reset': [reconnect_after_reset], 'reconnect-mid-packet': [reconnect_mid_packet], None: [eof_no_stall, close_during_connect, reconnect_after_reset, reconnect_mid_packet]},
+    'C12': {'reconnect-mid-packet': [reconnect_mid_packet], None: [delivery_order, delivery_all_clients, serial_split_marker, reconnect_mid_packet]},
     'C06': {None: [delivery_all_clients, serial_split_marker]},
     'C20': {'bound': [serial_buffer], 'split-marker': [serial_split_marker], None: [serial_buffer, serial_split_marker, delivery_all_clients]},
 }
